@@ -345,6 +345,52 @@ fn cli_case(dim: &Dim, hist: &[PSym], links: usize, layout: u8, pad_to: usize, m
     None
 }
 
+/// Every lane identifier of every link kind in every position class of a data word: first word after the TDH,
+/// first word after a CDW, first / last word of a continuation page (twice continued), last word before the TDT.
+/// Conforming by construction; run through a real LinkValidator in the two payload-reading non-stave modes.
+fn lane_position_cases() -> Vec<(String, Vec<PacketT>, Mode)> {
+    use fp_model::grammar::{Ev, HbfShape, LinkCfg, PageShape};
+    use fp_model::words;
+    let mut v = Vec::new();
+    let mut cfgs: Vec<(String, LinkCfg)> = Vec::new();
+    for base in [0u8, 3, 6] {
+        let mut c = LinkCfg::ib(1, 9);
+        c.lanes = (base..base + 3).map(words::ib_id).collect();
+        cfgs.push((format!("IB lanes {}..{}", base, base + 2), c));
+    }
+    for upper in [false, true] {
+        cfgs.push((format!("ML upper={upper}"), LinkCfg::ml(2, 11, upper)));
+        cfgs.push((format!("OL upper={upper}"), LinkCfg::ol(3, 21, upper)));
+    }
+    for (name, cfg0) in cfgs {
+        for fmt in [2u8, 0] {
+            let mut cfg = cfg0.clone();
+            cfg.data_format = fmt;
+            cfg.bc_step = 0x40;
+            for &id in &cfg.lanes {
+                let dw = |i: u8, salt: u8| words::data_word(i, [salt | 1; 9]);
+                let others: Vec<u8> = cfg.lanes.iter().copied().filter(|x| *x != id).collect();
+                let o = |k: usize| others[k % others.len().max(1)];
+                // page 0: [CDW] TDH id o o | TDT(open); page 1 (cont, open): id o; page 2 (cont, done): o id, then a
+                // second event on that page whose first and last word is id
+                let shape = HbfShape {
+                    pages: vec![
+                        PageShape { cont: None, evs: vec![Ev::Data { words: vec![dw(id, 0x10), dw(o(0), 0x12), dw(o(1), 0x14)], cdw: true, done: false }] },
+                        PageShape { cont: Some((vec![dw(id, 0x20), dw(o(1), 0x22)], false)), evs: vec![] },
+                        PageShape { cont: Some((vec![dw(o(0), 0x30), dw(id, 0x32)], true)), evs: vec![Ev::Data { words: vec![dw(id, 0x40)], cdw: false, done: true }] },
+                    ],
+                };
+                let plain = HbfShape { pages: vec![PageShape { cont: None, evs: vec![Ev::Data { words: vec![dw(id, 0x50), dw(o(0), 0x52), dw(id, 0x54)], cdw: false, done: true }] }] };
+                let pk = grammar::render_link(&cfg, &[shape, plain]);
+                for mode in [Mode::SanityIts, Mode::AllIts] {
+                    v.push((format!("{name}, data format {fmt}, lane id {id:#04x} in every word position"), pk.clone(), mode));
+                }
+            }
+        }
+    }
+    v
+}
+
 pub fn run(tier: Tier) -> i32 {
     val::init_process();
     let mut rep = Reporter::new("C01", tier, "model_checking");
@@ -412,9 +458,37 @@ pub fn run(tier: Tier) -> i32 {
             });
         }
     }
+    // every lane id in every word position
+    let lp = lane_position_cases();
+    let lres = par_map(&lp, |_, (_, pk, mode)| {
+        let mut off = 0u64;
+        let raw: Vec<val::RawPacket> = pk
+            .iter()
+            .map(|p| {
+                let r = (p.packet.rdh.encode().to_vec(), p.packet.payload.clone(), off);
+                off += p.packet.len() as u64;
+                r
+            })
+            .collect();
+        let o = val::validate_link(val::mode_cfg(*mode), &raw);
+        (o.errors(), o.panic)
+    });
+    for ((label, pk, mode), (errs, panic)) in lp.iter().zip(lres.iter()) {
+        if let Some(p) = panic {
+            rep.violation(Violation { signature: format!("panic:{}", val::panic_site(p)), description: format!("{p} [{label}]"), replay: json!({"kind": "xs", "mode": mode.name(), "stream_hex": hex(&grammar::contiguous(&[pk.clone()]).bytes())}) });
+        } else if let Some(e) = errs.first() {
+            let code = fp_model::rules::parse_error_message(e).and_then(|x| x.1.first().cloned()).unwrap_or_else(|| "E?".into());
+            rep.violation(Violation {
+                signature: format!("false-alarm:{code}:{}:lane-position", mode.name().replace(' ', "-")),
+                description: format!("conforming stream reported: {} [{label}, {}]", e.lines().next().unwrap_or(""), mode.name()),
+                replay: json!({"kind": "xs", "mode": mode.name(), "stream_hex": hex(&grammar::contiguous(&[pk.clone()]).bytes())}),
+            });
+        }
+    }
+    rep.cov("lane_position_cases", json!(lp.len()));
     rep.cov("states", json!(states));
     rep.cov("transitions", json!(transitions));
-    rep.cov("traces_validated_against_impl", json!(transitions + cli.len() as u64));
+    rep.cov("traces_validated_against_impl", json!(transitions + cli.len() as u64 + lp.len() as u64));
     rep.cov("fixpoint", json!(all_fix));
     rep.cov("merged_histories_checked", json!(merges));
     rep.cov("cli_runs", json!(cli.len()));
